@@ -186,6 +186,11 @@ class TxnaExpr(LeafExpr):
             )
         if isinstance(index, Expr):
             require_type(index, TealType.uint64)
+        elif not 0 <= index <= 255:
+            # a constant index is emitted as a uint8 immediate of txna/gtxna/itxna/gitxna
+            raise TealInputError(
+                f"Invalid constant array index: {index}. Expected a value in [0, 255]"
+            )
 
     def __init__(
         self,
